@@ -31,7 +31,11 @@ ASSUMPTIONS = [
     "SIGKILL may leave .pid and a stale .failed behind; what TERM does before the lock is held is not asserted",
 ]
 EXHAUSTIVE = {"quick": True, "thorough": True}
-MIN_CLASSES = {"quick": {"phase:inside-body": 30, "phase:after-body": 10, "phase:cleanup": 6, "phase:before-lock": 30, "signal:KILL": 80, "signal:TERM": 80, "signal:INT": 80}}
+MIN_CLASSES = {
+    "quick": {"phase:inside-body": 30, "phase:after-body": 10, "phase:before-lock": 30, "phase:marker-removal": 6, "signal:KILL": 80, "signal:TERM": 80, "signal:INT": 80},
+    # (the cleanup functions only run for a body that fails or is interrupted: thorough shapes)
+    "thorough": {"phase:cleanup": 20, "phase:inside-body": 200, "relaunch-faulted-again": 1000},
+}
 SIGS = {"KILL": signal.SIGKILL, "TERM": signal.SIGTERM, "INT": signal.SIGINT}
 
 _T = {}
@@ -87,21 +91,22 @@ def phase_of(where):
         # the class statement of the body runs when the task module is imported
         return "inside-body" if where.get("func") == "execute" else "loading"
     ph = phases()
-    line = where["line"]
+    line, func = where["line"], where.get("func")
 
     def inside(q):
         a, b = ph["ranges"].get(q, (0, -1))
         return a <= line <= b
 
-    if inside("TaskRunner.cleanup") or inside("TaskRunner.handle_error"):
+    # (the function *executing* the line: a `def` or `class` statement belongs to whoever executes it)
+    if func in ("cleanup", "handle_error"):
         return "cleanup"
-    if inside("run") or inside("rmfile") and False:
-        return "loading"
-    if inside("rmfile"):
+    if func == "rmfile":
         return "marker-removal"
-    if inside("TaskRunner.run.remove_signal_handlers"):
+    if func == "remove_signal_handlers":
         return "after-body"
-    if inside("TaskRunner.run"):
+    if func == "run" and inside("run"):
+        return "loading"
+    if func == "run" and inside("TaskRunner.run"):
         if line <= ph["locked"]:
             return "before-lock"
         if line < ph["runcall"]:
@@ -109,9 +114,7 @@ def phase_of(where):
         if line == ph["runcall"]:
             return "loading"
         return "after-body"
-    if inside("TaskRunner.__init__"):
-        return "before-lock"
-    return "before-lock"  # module-level lines of run.py executed at import
+    return "before-lock"  # module-level and class-level lines of run.py executed at import, __init__, argument parsing
 
 
 def begin_record_line():
